@@ -36,7 +36,7 @@ claim("C19", "DESIGN.md §5 C19",
 claim("C02", "DESIGN.md §5 C02",
       "Lean 4 theorems (penalty-QUBO energy identity over any field and for the model's MPData; well-shapedness of the three formulations' data; totality of the sequence data for L>=3) + differential correspondence and exhaustive 2^n identity check",
       "Proved for every program data (A,b,R,c,Q_obj), every rho of either sign, both modes and every binary x: x'Qx+k = objective(x) + rho(|Ax-b|^2 + x'Rx) (generic over any field; instantiated for the model). "
-      "Proved for the three formulation builders: dimensions are consistent (A is len(b) x n, c has length n, all indices in range), so the QUBO exists for every instance; sequence-based consistency assertions cannot fail when L>=3. "
+      "Proved for the three formulation builders: dimensions are consistent (A is len(b) x n, c has length n, all indices in range), so get_qubo — modelled as a partial operation that fails on inconsistent shapes (MPData.getQubo) — returns (Q,k) for every arc instance with a self-consistent graph, every path pool reachable by add_route (PoolInv) and every sequence instance with L>=3 (arc_/path_/seq_getQubo_ok), and what it returns satisfies the identity (getQubo_ok_energy); sequence-based consistency assertions cannot fail when L>=3. "
       "The builders (variable lists, A triples, b, R, c, Q_obj, sufficient penalty, Q, k) are compared with the code on every run, before and after the heuristic; the identity is re-checked on the real code's outputs over all 2^n vectors.",
       "scipy shape inference / COO dot quirks belong to the pinned code (repaired); the model keeps inferShape only as a regression lemma.")
 claim("C03", "DESIGN.md §5 C03",
@@ -91,11 +91,11 @@ claim("C07", "DESIGN.md §5 C07",
       "L >= 3, at least one node, depot self-arc present, depot window start >= 0 and self-arc time 0 for the strict-timing theorem.")
 claim("C08", "DESIGN.md §5 C08, §11",
       "Lean 4 composition theorems: path-based solutions = partitions into pool routes (all routes => reference), arc-based on a complete grid = reference partitions (both directions, via the decoder and representability theorems), non-strict sequence <= reference, strict sequence >= reference, default-penalty QUBO minima = constrained optima (C04) + exhaustive optimisation of the four real models against an independent optimiser",
-      "Proved on the model, cost-preservingly: path-based feasible vectors are exactly the partitions into pool routes, so with all valid routes enumerated the achievable costs are those of the reference problem; "
+      "Proved on the model, cost-preservingly: path-based feasible vectors are exactly the partitions into pool routes, so with all valid routes enumerated the achievable costs are those of the reference problem — also end to end for the pool BUILT by offering routes to add_route on a fixed graph (Props/C08c: poolValid_offer, offer_routes_iff_valid, path_offer_all_eq_reference, path_offer_exhaustive_eq_reference: no pool hypothesis left); "
       "arc-based on a complete grid (capacity not binding, depot window opening exactly at 0, no depot self-arc, positive customer-to-customer times): achievable costs = costs of reference partitions (the original statement without 'depot window opens at 0' is refuted in Lean); "
       "every reference partition with <= V routes of <= L stops is a non-strict walk assignment of equal cost; every strict walk assignment is a reference partition of equal cost. Equal / ordered optima and QUBO minima follow with C04. "
       "The four real models are optimised exhaustively on every run (constrained optima and default-penalty QUBO minima) and compared with a subset-DP optimiser over independently enumerated valid routes.",
-      "Small instances (<= 3 customers, n <= 18) for the exhaustive comparison; theorems are unbounded.")
+      "Small instances (<= 3 customers, n <= 18) for the exhaustive comparison; theorems are unbounded. 'Capacity not binding' is formalised as all demands zero (CapFree); the sequence theorems speak about the object's own graph (with its depot self-loop), the glue to one shared source graph is carried by the exhaustive comparison.")
 
 claim("C09", "DESIGN.md §5 C09, §11",
       "Lean 4 soundness theorems for the operational models of all three construction heuristics (fold invariants -> walks / exact cover / depot routes -> representation theorems of C05-C07), totality of the path-based one, QUBO-value corollaries + correspondence of the heuristics (outcome, graph, vehicles/pool, solution) + oracle on every normal return",
@@ -119,7 +119,7 @@ claim("C14", "DESIGN.md §5 C14, §11",
 
 claim("C16", "DESIGN.md §5 C16, §11",
       "Lean 4 theorems on an explicit object store (source unchanged, non-interference, order independence of request interleavings, getter idempotence) + differential test on real objects (deep snapshots, identity disjointness, fingerprints under all 6 orders)",
-      "Proved for the object-store model (each formulation slot is created on first request from a copy of the source and only its own slot is written by calls addressed to it): the source is never changed, the state of a formulation depends only on the source and the calls addressed to it, so any interleaving / request order gives identical formulations, and a repeated request returns the same object. "
+      "Proved for the object-store model (each formulation slot is created on first request from a copy of the source and only its own slot is written by calls addressed to it), generically and instantiated with the modelled MIRP getters and heuristics (mirp_source_unchanged, mirp_non_interference, mirp_order_independent, mirp_request_order_irrelevant, mirp_getter_idempotent): the source is never changed, the state of a formulation depends only on the source and the calls addressed to it, so any interleaving / request order gives identical formulations, and a repeated request returns the same object. "
       "That Python's deepcopy really yields disjoint objects is runtime behaviour: decided on every run by value snapshots of the source VRPTW/MIRP after every step, identity-disjointness of nodes/arcs/containers, and equality of complete fingerprints of each formulation across all 6 request orders.",
       "The store model's granularity is one cell per formulation; aliasing inside Python objects is tested, not proved.")
 
